@@ -261,6 +261,12 @@ def check_validation(repo, rep):
     loopnode = [n for n in ast.walk(fn) if isinstance(n, ast.For) and any(x is node for x in ast.walk(n))]
     if not loopnode or "candles" not in norm(loopnode[0].iter):
         rep.violation(rid, "spacing-check|all-sets", "the spacing test is not applied to every candle set of the `candles` argument")
+    # the warm-up candles are input as well: they are injected into the same 1m store and every larger timeframe is built from them
+    covered_warm = any(isinstance(n, ast.For) and "warmup_candles" in norm(n.iter) and any(x is t[0] for t in tests for x in ast.walk(n)) for n in ast.walk(fn))
+    if not covered_warm:
+        rep.violation(rid, "spacing-check|warmup", "_isolated_backtest applies the 60000 ms spacing test to the trading candles only: `warmup_candles` that are not one minute apart are "
+                                                   "accepted and injected into the 1m store (every larger timeframe built from them is then mis-spaced)")
+    rep.instance(rid, "warmup-candles", {"spacing_test_covers_warmup_candles": covered_warm})
     if cnt == 0:
         raise AnalysisError("_isolated_backtest: no path to simulator() found")
     rep.floor(rid, 2)
